@@ -2,7 +2,7 @@
    Property theorems only (Proofs/Streaming.v, Proofs/CodecProofs.v).  [feed_items step unread s buf
    chunks] drives a decoder the way FramedRead does: append a chunk, decode until "need more";
    it returns (items, bytes never consumed, no-error flag). *)
-From SwimV Require Import Model.Codec Proofs.Streaming Proofs.CodecProofs.
+From SwimV Require Import Model.Codec Proofs.Streaming Proofs.CodecProofs Proofs.ProtoFrameProofs.
 Open Scope N_scope.
 
 (* The generic streaming theorem: any resumable decoder that completes a frame as soon as its
@@ -56,3 +56,23 @@ Proof. exact lane_request_any_chunking. Qed.
    decoder, whose internal loop is bounded by fuel in the model) *)
 Theorem C10_no_panic : forall c s b, panic_free c = true -> snd (dstep c s b) <> DPanic.
 Proof. exact no_panic. Qed.
+
+(* the routed WARP messages between the runtime and an agent (swimos_messages::protocol; every link / sync / unlink /
+   command request and every linked / synced / unlinked / event response travels in one): origin, the node and lane
+   names (ASCII, below 2^32 bytes), the tag in the top three bits and the body length in the low 61 of one word *)
+Theorem C10_routed_request_frames : frame_spec (dec_proto true) (encode CReq) valid_req.
+Proof. exact req_frame_spec. Qed.
+
+Theorem C10_routed_response_frames : frame_spec (dec_proto false) (encode CResp) valid_resp.
+Proof. exact resp_frame_spec. Qed.
+
+(* hence every sequence of them decodes to itself under every fragmentation, through the model's decoder step *)
+Theorem C10_routed_request_any_chunking : forall chunks ms all,
+  Forall valid_req ms -> enc_all (encode CReq) ms = Some all -> concat chunks = all ->
+  feed_items (dstep CReq) no_unread SHeader [] chunks = (ms, [], true).
+Proof. exact request_any_chunking. Qed.
+
+Theorem C10_routed_response_any_chunking : forall chunks ms all,
+  Forall valid_resp ms -> enc_all (encode CResp) ms = Some all -> concat chunks = all ->
+  feed_items (dstep CResp) no_unread SHeader [] chunks = (ms, [], true).
+Proof. exact response_any_chunking. Qed.
